@@ -129,7 +129,12 @@ where
             WaitingProjected::NoPool => Poll::Ready(WaitingPoll::Closed),
         };
 
-        if polled.is_ready() {
+        // Only give up the receiver once it has resolved. A `NotReady` outcome must keep it, so
+        // that a connection released later can still pre-empt this checkout's own attempt.
+        if matches!(
+            polled,
+            Poll::Ready(WaitingPoll::Connected(_) | WaitingPoll::Closed)
+        ) {
             self.as_mut().set(Waiting::NoPool);
         };
 
